@@ -755,3 +755,7 @@ def run(ctx):
     ctx.extra['registered_classes'] = sorted(known)
     rule_K3_K4(ctx)
     rule_oneshot(ctx)
+    # the flag of an array-valued noise setting must find its array after
+    # loading (rule of C13, shared)
+    from .c13 import flag_arm_keeps_array
+    flag_arm_keeps_array(ctx, 'C17.K2.plain')
